@@ -46,6 +46,10 @@ macro = st.tuples(st.sampled_from(['newcommand', 'newcommand', 'def']), st.sampl
                   st.lists(belem, min_size=0, max_size=4))
 
 
+PACKAGE_MACROS = [('amsmath', '\\eqref'), ('amsthm', '\\qedhere'), ('xcolor', '\\textcolor'), ('graphicx', '\\includegraphics'),
+                  ('hyperref', '\\url'), ('amsmath', '\\medspace'), ('xspace', '\\xspace')]
+
+
 def delem(child):
     arg = st.one_of(st.tuples(st.just('braced'), child), st.tuples(st.just('braced'), child), st.tuples(st.just('single'), st.sampled_from('xyz')),
                     st.tuples(st.just('cw'), st.sampled_from(['LaTeX', 'TeX', 'ss']), st.booleans()))
@@ -498,6 +502,29 @@ def check(doc):
                             {'in_document': plain, 'definitions_option': p2, 'LTinput': p3,
                              'first_difference': next(((u, v) for u, v in zip(a1, a2 if a1 != a2 else a3) if u != v), None)})
         routes = 3
+        # a user redefinition of a package macro survives a repeated \usepackage of the same package (LaTeX loads a
+        # package once; round-5 seed C03-I): the last macro, which no other body calls, takes the name of a package macro
+        chain = sum(sp[1] for sp in specs) % 2 == 0
+        if macs and not chain and macs[-1].name in body:
+            m = macs[-1]
+            pk, pname = PACKAGE_MACROS[(len(src) + m.n) % len(PACKAGE_MACROS)]
+            copt = ['', '[12pt]', '[a4paper,12pt]', '[12pt]'][len(body) % 4]
+            defs = ''.join(def_source(k) for k in macs[:-1]) + def_source(m, 'renewcommand')
+            head = '\\documentclass' + copt + '{article}\n\\usepackage{' + pk + '}\n'
+            again = '\\usepackage{' + pk + '}\n'
+            va = (head + defs + body).replace(m.name, pname)
+            vb = (head + defs + again + body).replace(m.name, pname)
+            try:
+                with watchdog(40):
+                    (pa, _), ea = sut.tex2txt(va, lang='en')
+                    (pb, _), eb = sut.tex2txt(vb, lang='en')
+            except (Exception, SystemExit) as e:
+                raise Violation('exception:' + sut_frame(e), case, repr(e))
+            if pa != pb or ea != eb:
+                raise Violation('redefinition-lost-by-repeated-usepackage', dict(case, variant=vb),
+                                {'loaded_once': pa, 'loaded_twice': pb, 'stderr_once': ea, 'stderr_twice': eb})
+            x.feat.add('package-macro-redefined')
+            routes = 4
     nt = bool(x.feat & {'call-in-argument', 'omitted-optional', 'parameter-twice'})
     return src, nt, x.feat, routes
 
